@@ -18,7 +18,7 @@ Section M.
   Lemma list_count s pc : piece_inv zt s -> 1 <= pc <= 12 ->
     length (nthd (r_lists s) pc []) = length (filter (fun sq => nthd (r_board s) sq 0 =? pc) all_squares).
   Proof.
-    intros [_ [_ [_ [Hcov [_ [_ [_ [_ Hls]]]]]]]] Hpc. destruct (Hls pc Hpc) as [Hnd Hel].
+    intros [_ [_ [_ [Hcov [_ [_ [_ [_ [Hls _]]]]]]]]] Hpc. destruct (Hls pc Hpc) as [Hnd Hel].
     apply Permutation_length. apply NoDup_Permutation; [exact Hnd|apply NoDup_filter; apply NoDup_all_squares|].
     intro x. rewrite filter_In, <- in_all_squares. split.
     - intro Hin. destruct (Hel x Hin) as [A B]. split; [exact A|apply N.eqb_eq; exact B].
